@@ -289,6 +289,12 @@ Definition P_C12_block (wa : list addr) (prev : snapshot) (b : blk) : bool :=
                    end) (sn_frozen (k_snap b))
   && forallb (λ s, negb (sv_refund s <=? h - 1) || negb (existsb (λ s0, (sv_hash s0 =? sv_hash s)%N && (sv_refund s0 =? sv_refund s)) (sn_frozen prev)))
              (sn_frozen (k_snap b))
+  (* a stake enters the unbonding ledger only by LEAVING the bonded set in this block (a stake created and
+     released inside one block never shows in the previous snapshot: then it must at least not be bonded now) *)
+  && forallb (λ s, match find_view (sv_hash s) (sn_frozen prev) with
+                   | Some _ => true
+                   | None => match find_stake_view s (bonded_views (k_snap b)) with Some _ => false | None => true end
+                   end) (sn_frozen (k_snap b))
   (* an unbonding stake is untouched until it matures: same owner, target, start, refund height and
      POWER (it is paid back in full: nothing, slashing of its former validator included, reaches it) *)
   && forallb (λ s0, (sv_refund s0 <=? h) ||
